@@ -525,7 +525,11 @@ def run(ctx, out):
     enum_cases = gen_enums(rng, 60 if not thorough else 600)
     for lits, valid in enum_cases:
         en = E.EEnum('En')
+        # (every second literal carries a display text `literal` different from its name: conversion goes by NAME)
         objs = [E.EEnumLiteral(name=nm, value=val) for nm, val in lits]
+        for j, x in enumerate(objs):
+            if j % 2:
+                x.literal = 'lit ' + x.name
         en.eLiterals.extend(objs)
         kept = list(en.eLiterals)          # an ordered set: literals are distinct objects, all kept
         req_e = [len(kept)]
@@ -716,6 +720,9 @@ def replay(ctx, rep):
             return 0
         en = E.EEnum('En')
         objs = [E.EEnumLiteral(name=nm, value=val) for nm, val in case['enum']]
+        for j, x in enumerate(objs):
+            if j % 2:
+                x.literal = 'lit ' + x.name
         en.eLiterals.extend(objs)
         o = list(en.eLiterals)[case.get('literal', 0)]
         w = en.from_string(en.to_string(o))
